@@ -21,6 +21,9 @@ structure CfgD (u : Text → Text) (cfg : DrvCfg) : Prop where
   trailInert : ∀ x, isTrailing x = true → x.isWhitespace = true ∨ cfg.isMatch x = false
   openProt : FromT cfg ∨ ∀ o H, IsDelim u o → openerBad u o H = false → cfg.validPrev o = false ∨ cfg.isMatch H = false
   closeProt : ∀ c x, IsDelim u c → closerBad u c x = false → NoTake cfg x c
+  il : cfg.cls = .IdentifierList →
+    (∀ cur p t n r, cfg.post cur p t n = .ok r → ∃ n', n = some n' ∧ r.2.2 = n') ∧
+    (∀ x, cfg.validNext (some x) = true → isComma x = false)
 
 theorem Ph.le_refl (ph : Ph) : ph.le ph = true := by cases ph <;> rfl
 
@@ -29,7 +32,7 @@ theorem drvLoop_listInv {cfg : DrvCfg} (hc : CfgD u cfg) {ph : Ph} {L : List Nod
     (h : drvLoop cfg L 0 (drvInit L) = .ok st) (hi : ListInv u ph L) : ListInv u ph st.cur := by
   obtain ⟨J, hJ, hpk, hJ0⟩ := hc.inv
   have := drvLoop_ops_gen hc.al hc.cls hJ hpk (S := []) (F := L) (fun _ hx => nomatch hx) (fun _ hh => by cases hh)
-    (fun _ hh => by cases hh) L [] 0 (drvInit L) st 0 rfl (by simpa using al_init L)
+    (fun _ hh => by cases hh) hc.il L [] 0 (drvInit L) st 0 rfl (by simpa using al_init L)
     (by simpa [drvInit] using PrefRel.refl 0 L) (by simpa using hJ0 L) (by simpa using hn_init L)
     (by simpa [drvInit] using Ops.refl (al := false) (S := []) L) (by simpa using h)
   simp only [List.append_nil] at this
@@ -39,7 +42,7 @@ theorem drvLoop_ops0 {cfg : DrvCfg} (hc : CfgD u cfg) {L : List Node} {st : DrvS
     (h : drvLoop cfg L 0 (drvInit L) = .ok st) : Ops false [] L st.cur := by
   obtain ⟨J, hJ, hpk, hJ0⟩ := hc.inv
   have := drvLoop_ops_gen hc.al hc.cls hJ hpk (S := []) (F := L) (fun _ hx => nomatch hx) (fun _ hh => by cases hh)
-    (fun _ hh => by cases hh) L [] 0 (drvInit L) st 0 rfl (by simpa using al_init L)
+    (fun _ hh => by cases hh) hc.il L [] 0 (drvInit L) st 0 rfl (by simpa using al_init L)
     (by simpa [drvInit] using PrefRel.refl 0 L) (by simpa using hJ0 L) (by simpa using hn_init L)
     (by simpa [drvInit] using Ops.refl (al := false) (S := []) L) (by simpa using h)
   simpa using this
@@ -77,7 +80,7 @@ theorem drvLoop_frame (hu : DelimU u) {cfg : DrvCfg} (hc : CfgD u cfg) {ph : Ph}
   have hops : Ops false (cl :: tr) L st.cur := by
     have h' := h
     rw [hf.eq] at h' ⊢
-    refine drvLoop_ops_gen hc.al hc.cls hJ hpk (S := cl :: tr) (F := F) ?_ ?_ ?_ F [] 0 _ st 0 rfl (al_init _)
+    refine drvLoop_ops_gen hc.al hc.cls hJ hpk (S := cl :: tr) (F := F) ?_ ?_ ?_ hc.il F [] 0 _ st 0 rfl (al_init _)
       (PrefRel.refl 0 _) (hJ0 _) (hn_init _) (Ops.refl _) h'
     · intro x hx
       cases hx with
